@@ -414,7 +414,7 @@ func oracleC10(m *gensim.MethodMeta, fr *rtFuncReport, twin *rtFuncReport, st *S
 
 var reDiag = regexp.MustCompile(`(?m)^(?:\./)?conv/([\w.]+\.go):(\d+):(\d+): (.*)$`)
 
-var capableNames = []string{"ErrHookShared", "cA", "cD", "CD", "cLE", "cLI", "G", "cNX", "cE1", "cC", "cR", "cP", "cW", "GetY", "GetB", "GetV", "Get", "SubN"}
+var capableNames = []string{"ErrHookShared", "cV", "cA", "cD", "CD", "cLE", "cLI", "G", "cNX", "cE1", "cC", "cR", "cP", "cW", "GetY", "GetB", "GetV", "Get", "SubN"}
 
 // attributeDiagnostics maps compiler diagnostics in the generated file onto
 // C07 / C10 narrowly; everything else is a note.
@@ -582,7 +582,7 @@ func execGen(env *sim.Env, c GenCase, prop string) CaseResult {
 		// a nil value of its type, and the generated function must then carry on and
 		// return a nil error. So for these kinds acceptance alone is no verdict: the
 		// world is built and run.
-		if mk != "concrete-error-result" && mk != "slice-error-result" {
+		if mk != "concrete-error-result" && mk != "slice-error-result" && mk != "variadic-extras" {
 			keep([]*Violation{{Property: "C10", Invariant: "C10/misfit-rejected", Sig: map[string]string{"misfit": mk},
 				Summary: fmt.Sprintf("a hook whose shape cannot fit the method (%s) was accepted (exit 0)", c.Meta.Kind), Detail: string(d)}})
 			return res
@@ -599,6 +599,22 @@ func execGen(env *sim.Env, c GenCase, prop string) CaseResult {
 		var reports []rtFuncReport
 		if err != nil || json.Unmarshal([]byte(so), &reports) != nil || len(reports) == 0 || len(reports[0].Results) == 0 {
 			st.Note("misfit world accepted but its driver failed: %v %s", err, clip([]byte(serr), 200))
+			return res
+		}
+		if mk == "variadic-extras" {
+			// accepted: then the hook must run once and be handed the additional arguments
+			b := reports[0].Results[0]
+			n, got := 0, []string(nil)
+			for _, call := range b.Trace {
+				if call.Site == "Bad"+mm.Name {
+					n++
+					got = call.Extra
+				}
+			}
+			if b.Panic != "" || n != 1 || strings.Join(got, "|") != strings.Join(b.Extra, "|") {
+				keep([]*Violation{{Property: "C10", Invariant: "C10/misfit-rejected", Sig: map[string]string{"misfit": mk, "how": "accepted-and-misbehaves"},
+					Summary: fmt.Sprintf("a hook taking the additional arguments variadically was accepted, ran %d times and received %v where %v were passed %s", n, got, b.Extra, b.Panic), Detail: string(d)}})
+			}
 			return res
 		}
 		if b := reports[0].Results[0]; b.Err != "nil" || b.Panic != "" {
